@@ -156,10 +156,20 @@ fn build_type_map(sp: &Space, g: u64, supers: &[&Vec<Sym>], mask: u32) -> TypeMa
             c.slots
                 .push(metatype::Method::with_argument_types("m", "void", ["int"]));
             c.signals.push(metatype::Method::nullary("n", "void"));
+            // a scoped enum (its variants are not visible unqualified) before or after the unscoped one
+            let mut scoped = metatype::Enum::with_values("S", ["SV".to_owned(), format!("SV{i}")]);
+            scoped.is_class = true;
+            if i % 2 == 0 {
+                c.enums.push(scoped.clone());
+            }
             c.enums.push(metatype::Enum::with_values(
                 "E",
                 ["V".to_owned(), format!("V{i}")],
             ));
+            if i % 2 == 1 {
+                c.enums.push(scoped);
+            }
+            c.enums.push(metatype::Enum::with_values("T", [format!("TV{i}")]));
         }
         classes.push(c);
     }
